@@ -38,6 +38,8 @@ fn declare_kinds(kinds: u32, binops: u64) {
     use crate::instruction::verif_gate::*;
     allow_unops(0);
     allow_binops(binops);
+    // operands of `+=` are ints: no compound value is ever concatenated or typed
+    crate::variable::verif_valgate::allow_vals(0);
     allow_mask((1 << K_VARIABLE) | (1 << K_BINOPERATION) | kinds);
 }
 use crate::instruction::verif_gate::b as opbit;
